@@ -39,10 +39,11 @@ ASSUMPTIONS = ["glibc 2.36 in the \"C\" locale (setlocale(LC_ALL, \"C\")) is the
                "neither compiled nor modelled here"]
 TRUSTED = ["hand model Tetl/C18/Model.lean tied to the source by the correspondence run (R1) on every run",
            "spec Tetl/C18/Spec.lean validated against glibc (R2) on every run",
-           "the order of code units (Spec.key: unsigned for char, two's-complement 32-bit for wchar_t) and the reduction of "
-           "the int argument to the character type (Spec.toUnit) are the SAME definitions in model and spec "
-           "(Lemmas.key_eq is rfl): the theorems cannot detect an error in them; only R2 against glibc does (units 200, "
-           "0x80000010, 0x7FFFFFF0; ch in {-1, 256, 256+97, hi-256})"]
+           "the reduction of the int argument to the character type is the same definition in model and spec "
+           "(CT.cast = Spec.toUnit = the residue modulo 2^bits, C 6.3.1.3): the theorems cannot detect an error in it; "
+           "only R2 against glibc does (ch in {-1, 256, 256+97, hi-256}).  The order of code units is defined "
+           "independently (spec: identity for char, balanced remainder Int.bmod for wchar_t; model: compare_units' casts) "
+           "and related by Lemmas.key_eq"]
 SEARCH_CAP = 900000
 
 CTYPE = ["isalnum", "isalpha", "isblank", "iscntrl", "isdigit", "isgraph", "islower", "isprint", "ispunct", "isspace",
@@ -502,8 +503,8 @@ LEVEL_TEXT = ("Each modelled function of <cstring>/<cwchar> is proved in Lean 4,
               "ASan/UBSan, random longer strings, both overloads of the search functions); the spec is validated against glibc "
               "on the same inputs.")
 LEVEL_NOTE = ("Trusted: Lean kernel + propext/Classical.choice/Quot.sound; the hand model's fidelity outside the explored inputs; "
-              "g++-12/ASan/UBSan; glibc 2.36 as oracle for spec validation; the unit order and the int -> character reduction, "
-              "which model and spec share. The `#if defined(__clang__)` __builtin_* branches are not compiled (harness built "
+              "g++-12/ASan/UBSan; glibc 2.36 as oracle for spec validation; the int -> character reduction, which model and "
+              "spec share. The `#if defined(__clang__)` __builtin_* branches are not compiled (harness built "
               "with g++). The footprint theorems speak about the model (all its accesses are checked and a failed access "
               "cannot be recovered from); for the implementation the same is observed by ASan on the exact-size buffers. "
               "The two overloads of a search function instantiate one template with CharT / CharT const: they share one "
